@@ -107,3 +107,17 @@ Example rename_guard_nonvacuous :
   subs_stmts [(sA, Sym sC)] re_prog =
   [Assign sC (Sym sT); Assign sB (Sym sC); Assign sC (Add (Sym sB) (Num 1)); Assign sY (Add (Sym sC) (Sym sB))].
 Proof. repeat split; vm_compute; reflexivity. Qed.
+
+(* kept_covariances_unchanged: a 3x3 block (ETA1, ETA2, EPS-as-third) whose middle variable is unused: the
+   remaining 2x2 block has the corner entries of the original, looked up by name; the hypotheses hold *)
+Definition u_rvs3 : list dist :=
+  [Joint [mkRow uETA1 [] [[uO11]; [uO21]; [uTH3]]; mkRow uETA2 [] [[uO21]; [uO22]; []];
+          mkRow uEPS [] [[uTH3]; []; [uSIG]]]].
+Example kept_covariances_example :
+  wf_rvs u_rvs3 = true /\
+  new_rvs u_prog u_rvs3 = [Joint [mkRow uETA1 [] [[uO11]; [uTH3]]; mkRow uEPS [] [[uTH3]; [uSIG]]]] /\
+  dist_cov (hd (Normal xH [] []) (new_rvs u_prog u_rvs3)) uETA1 uEPS = Some [uTH3] /\
+  dist_cov (hd (Normal xH [] []) u_rvs3) uETA1 uEPS = Some [uTH3] /\
+  dist_cov (hd (Normal xH [] []) u_rvs3) uEPS uEPS = Some [uSIG] /\
+  dist_cov (hd (Normal xH [] []) (new_rvs u_prog u_rvs_ex)) uETA1 uETA1 = Some [uO11].
+Proof. repeat split; vm_compute; reflexivity. Qed.
